@@ -151,6 +151,8 @@ type c03Party struct {
 	tipLocalIdx   uint64 // remote tip: messageIndices.Local
 	tipRemoteIdx  uint64 // remote tip: messageIndices.Remote
 	tailRemoteIdx uint64 // local tail: messageIndices.Remote
+	// counters oweCommitment must NOT read (other commitments of the chains)
+	tailLocalIdx, oldLocalIdx, oldRemoteIdx uint64
 
 	curPt, nextPt *btcec.PublicKey // RemoteCurrentRevocation / RemoteNextRevocation (nil = unknown)
 
@@ -194,11 +196,15 @@ func c03Chan(p *c03Party) *LightningChannel {
 	lch.addCommitment(&commitment{
 		height:         p.localH,
 		whoseCommit:    lntypes.Local,
-		messageIndices: lntypes.Dual[uint64]{Local: p.tipLocalIdx, Remote: p.tailRemoteIdx},
+		messageIndices: lntypes.Dual[uint64]{Local: p.tailLocalIdx, Remote: p.tailRemoteIdx},
 	})
 	rch := newCommitmentChain()
 	if p.unacked {
-		rch.addCommitment(&commitment{height: p.remTail, whoseCommit: lntypes.Remote})
+		rch.addCommitment(&commitment{
+			height:         p.remTail,
+			whoseCommit:    lntypes.Remote,
+			messageIndices: lntypes.Dual[uint64]{Local: p.oldLocalIdx, Remote: p.oldRemoteIdx},
+		})
 		rch.addCommitment(&commitment{
 			height:         p.remTail + 1,
 			whoseCommit:    lntypes.Remote,
@@ -334,6 +340,7 @@ func c03SymParty(self, peer byte) *c03Party {
 	p.outpoint = c03Outpoint()
 	p.localLogIdx, p.tipLocalIdx = vU64("localLogIndex"), vU64("remoteTipLocalIndex")
 	p.tipRemoteIdx, p.tailRemoteIdx = vU64("remoteTipRemoteIndex"), vU64("localTailRemoteIndex")
+	p.tailLocalIdx, p.oldLocalIdx, p.oldRemoteIdx = vU64("localTailLocalIndex"), vU64("remoteTailLocalIndex"), vU64("remoteTailRemoteIndex")
 	p.curPt = c03PoolPoint(0)
 	if shape != 0 {
 		p.nextPt = c03PoolPoint(1)
@@ -658,7 +665,13 @@ func c03Check(tag string, p *c03Party, x *c03Msg, f c03Ref, res c03Result) {
 	case revAt >= 0 && freshAt >= 0:
 		vReach(tag + "resend-revocation-and-sign")
 	case revAt >= 0:
-		vReach(tag + "resend-revocation")
+		if p.pending() {
+			// updates pending but the window is closed: SignNextCommitment
+			// answered ErrNoWindow and only the revocation goes out
+			vReach(tag + "resend-revocation-no-window")
+		} else {
+			vReach(tag + "resend-revocation")
+		}
 	case sigAt >= 0:
 		vReach(tag + "resend-commit")
 	default:
@@ -756,6 +769,7 @@ func c03HonestParty(tag string, self, peer byte, ct chanstate.ChannelType, op wi
 	p.lastWasRevoke = vBool(tag + "LastWasRevoke")
 	p.localLogIdx, p.tipLocalIdx = vU64(tag+"LocalLogIndex"), vU64(tag+"RemoteTipLocalIndex")
 	p.tipRemoteIdx, p.tailRemoteIdx = vU64(tag+"RemoteTipRemoteIndex"), vU64(tag+"LocalTailRemoteIndex")
+	p.tailLocalIdx, p.oldLocalIdx, p.oldRemoteIdx = vU64(tag+"LocalTailLocalIndex"), vU64(tag+"RemoteTailLocalIndex"), vU64(tag+"RemoteTailRemoteIndex")
 	p.store = &c03Store{
 		tipErr:    errors.New("c03: RemoteCommitChainTip failed"),
 		appendErr: errors.New("c03: AppendRemoteCommitChain failed"),
